@@ -147,6 +147,7 @@ def run(model: RepoModel, rep, tier: str):
     rep.rule("C02.R2", "operand names of the core operations agree: every required operand is supplied under the name the readers "
                        "read, and no frontend emits an operand under a name no reader reads", min_instances=300)
     rep.rule("C02.R3", "every *_decl operation a frontend emits is a declaration kind known to the scope builder", min_instances=30)
+    rep.rule("C02.R5", "the normaliser shared by the python/javascript/php frontends (temporary elimination) drops no operand or operator", 5)
     rep.rule("C02.R4", "the receiver keyword reaches GIR as the internal `this` symbol: routed by the frontend's literal map or by a "
                        "normaliser registered for that language", min_instances=4)
 
@@ -286,6 +287,10 @@ def run(model: RepoModel, rep, tier: str):
                           f"{lg}: neither the frontend routes `{kw}` to LIAN_INTERNAL.THIS nor is unify_this/unify_python_self registered "
                           f"for the language: field accesses on the receiver are not recognised as `%this` by any analysis")
 
+    # ------------------------------------------------------------------ R5
+    from .c01 import check_tmp_elimination
+    check_tmp_elimination(model, rep, "C02.R5")
+
 
 def _scope_builder_ops(model: RepoModel) -> Set[str]:
     cm = model.module("config/constants.py")
@@ -365,6 +370,9 @@ MUTANTS = [
     ("go-array-write-renamed", "lang/go_parser.py", _rename_attr("array_write", "index", "idx"), "go::array_write"),
     ("ts-while-unhandled-op", "lang/typescript_parser.py", _rename_op("while_stmt", "loop_stmt"), "typescript::loop_stmt"),
     ("ts-return-renamed-attr", "lang/typescript_parser.py", _rename_attr("return_stmt", "name", "target"), "typescript::return_stmt"),
+    ("tmp-elim-ignores-operator", "events/default_event_handlers/add_var_decl.py",
+     lambda src: __import__("sa.mutate", fromlist=["x"]).text_replace(src, '            or curr_content.get("operand2") \n            or curr_content.get("operator")):', '            or curr_content.get("operand2")):'),
+     "has no operator"),
     ("reader-renamed", "basics/stmt_def_use_analysis.py",
      lambda src: __import__("sa.mutate", fromlist=["x"]).replace_expr_where(
          src, "StmtDefUseAnalysis", "return_stmt_def_use", lambda e: isinstance(e, ast.Attribute) and e.attr == "name", lambda n: "stmt.value"),
